@@ -145,8 +145,12 @@ def run_base(ctx, rng, base_text, base_toks, c, keys):
     for tail in [' ) garbage', " 'unterminated", ' # bar(b).', '% comment at EOF', ' foo(', ' :- .', ' .', '"x"', ' é']:
         cases.append(('tail', 0, base_text.rstrip('\n') + tail))
     sample = None
+    same_len_rejected = []
+    base_len = len(base_text.encode('utf8'))
     for kind, i, t in cases:
         v, an = judge(ctx, t, c)
+        if an['accept'] is False and len(same_len_rejected) < 5 and len(t.encode('utf8')) == base_len and t != base_text:
+            same_len_rejected.append(t)
         k = 'edit_' + kind.split(':')[0]
         c[k] = c.get(k, 0) + 1
         if an['accept'] is False:
@@ -157,7 +161,48 @@ def run_base(ctx, rng, base_text, base_toks, c, keys):
         if v and first_v is None:
             v['detail']['edit'] = [kind, i]
             first_v = v
+    if first_v is None and same_len_rejected:
+        v = file_history(ctx, base_text, same_len_rejected, c)
+        if v:
+            first_v = v
     return first_v, sample
+
+
+def file_history(ctx, base_text, bad_texts, c):
+    """the file API with a compilation history: the same path first holds a valid program, then text outside the
+    grammar of exactly the same size, with the file's modification time preserved (cp -p, rsync -t, coarse
+    timestamps): the second compilation must look at the new contents"""
+    import os
+    import tempfile
+    real = ctx['real']
+    d = tempfile.mkdtemp(prefix='ypv-c10-')
+    path = os.path.join(d, 'prog.prolog')
+    try:
+        with open(path, 'w', encoding='utf8', newline='') as f:
+            f.write(base_text)
+        st = os.stat(path)
+        try:
+            real.Cm.compile_prolog_from_file(path, Ctx)
+        except Exception:
+            return None
+        for t in bad_texts:
+            with open(path, 'w', encoding='utf8', newline='') as f:
+                f.write(t)
+            os.utime(path, ns=(st.st_atime_ns, st.st_mtime_ns))
+            c['file_history_cases'] = c.get('file_history_cases', 0) + 1
+            try:
+                real.Cm.compile_prolog_from_file(path, Ctx)
+            except Exception:
+                continue
+            return {'kind': 'file_outside_grammar_accepted_after_valid_version', 'detail': {'same_size': True, 'mtime_preserved': True},
+                    'witness': {'text': t, 'previous_valid_text': base_text}}
+    finally:
+        try:
+            os.unlink(path)
+            os.rmdir(d)
+        except OSError:
+            pass
+    return None
 
 
 def run_case(ctx, seed, idx, tier):
